@@ -206,6 +206,56 @@ func c18GenInput(r *rand.Rand, class string) []byte {
 	return []byte(sb.String())
 }
 
+// The pair sweep: every rune of the script blocks the bundled filters keep tables for, followed by (and,
+// second half, preceded by) every combining / width / joiner mark - table look-ups indexed by a rune and
+// its neighbour are enumerated instead of hoped for. Eight pairs per input, separated by spaces.
+var c18SweepBlocks = [][2]rune{{0x00C0, 0x024F}, {0x0370, 0x03FF}, {0x0400, 0x04FF}, {0x0600, 0x06FF}, {0x0900, 0x097F},
+	{0x1100, 0x11FF}, {0x3000, 0x30FF}, {0x3300, 0x33FF}, {0xFF00, 0xFFEF}}
+var c18SweepMarks = []rune{0x0300, 0x0301, 0x0308, 0x0327, 0x0640, 0x064B, 0x0651, 0x0652, 0x0670, 0x0902, 0x093C, 0x094D,
+	0x3099, 0x309A, 0x30FC, 0xFF70, 0xFF9E, 0xFF9F, 0x200C, 0x200D, 0x00AD, 0xFE0F}
+
+const c18SweepGroup = 8
+
+func c18SweepPairs() int {
+	n := 0
+	for _, b := range c18SweepBlocks {
+		n += int(b[1]-b[0]) + 1
+	}
+	return 2 * n * len(c18SweepMarks)
+}
+
+func c18SweepInputs() int { return (c18SweepPairs() + c18SweepGroup - 1) / c18SweepGroup }
+
+func c18SweepInput(i int) []byte {
+	half := c18SweepPairs() / 2
+	var sb strings.Builder
+	for p := i * c18SweepGroup; p < (i+1)*c18SweepGroup && p < 2*half; p++ {
+		q := p % half
+		k := q / len(c18SweepMarks)
+		m := c18SweepMarks[q%len(c18SweepMarks)]
+		var x rune
+		for _, b := range c18SweepBlocks {
+			w := int(b[1]-b[0]) + 1
+			if k < w {
+				x = b[0] + rune(k)
+				break
+			}
+			k -= w
+		}
+		if sb.Len() > 0 {
+			sb.WriteByte(' ')
+		}
+		if p < half {
+			sb.WriteRune(x)
+			sb.WriteRune(m)
+		} else {
+			sb.WriteRune(m)
+			sb.WriteRune(x)
+		}
+	}
+	return []byte(sb.String())
+}
+
 var c18Classes = []string{"latin", "arabic", "persian", "cyrillic", "devanagari", "cjk", "sorani", "misc", "raw", "truncated", "mixed"}
 
 type c18Job struct {
@@ -214,6 +264,7 @@ type c18Job struct {
 	Seed   int64
 	N      int
 	Search bool
+	Sweep  bool // enumerate the rune-pair sweep instead of drawing N inputs
 }
 
 type c18Finding struct {
@@ -255,9 +306,19 @@ func c18Child(in json.RawMessage) (interface{}, error) {
 			out.Findings = append(out.Findings, c18Finding{Key: key, What: what, Input: append([]byte(nil), input...), Class: class})
 		}
 	}
-	for i := 0; i < job.N; i++ {
-		class := c18Classes[r.Intn(len(c18Classes))]
-		input := c18GenInput(r, class)
+	n := job.N
+	if job.Sweep {
+		n = c18SweepInputs()
+	}
+	for i := 0; i < n; i++ {
+		var class string
+		var input []byte
+		if job.Sweep {
+			class, input = "pairsweep", c18SweepInput(i)
+		} else {
+			class = c18Classes[r.Intn(len(c18Classes))]
+			input = c18GenInput(r, class)
+		}
 		out.Inputs++
 		func() {
 			defer func() {
@@ -432,7 +493,7 @@ func c18RoundTrip(a *analysis.Analyzer, text []byte) string {
 }
 
 func runC18(c *vk.Ctx) {
-	c.Rule("script-aware generators (Latin, Arabic, Persian, Cyrillic, Devanagari, CJK incl. half/full width, Sorani, emoji / joiners / control characters, raw bytes, truncated runes, mixtures) fed to all 24 bundled analyzers, 8 tokenizers, ~75 token filter configurations (n-gram, edge n-gram, shingle, truncate, length grids; stemmers, normalisers, elision, compound, bigram, width ...) with synthetic token streams (whole input, pieces, empty and one-rune tokens) and 5 char filters, in child processes with a progress watchdog; " +
+	c.Rule("script-aware generators (Latin, Arabic, Persian, Cyrillic, Devanagari, CJK incl. half/full width, Sorani, emoji / joiners / control characters, raw bytes, truncated runes, mixtures) fed to all 24 bundled analyzers, 8 tokenizers, ~75 token filter configurations (n-gram, edge n-gram, shingle, truncate, length grids; stemmers, normalisers, elision, compound, bigram, width ...) with synthetic token streams (whole input, pieces, empty and one-rune tokens) and 5 char filters, in child processes with a progress watchdog; plus an enumerated sweep through every analyzer / tokenizer / filter of all (rune, mark) and (mark, rune) pairs for the runes of nine script blocks (Latin-1 sup./ext., Greek, Cyrillic, Arabic, Devanagari, Hangul Jamo, CJK symbols + kana, CJK compatibility, half/full-width forms) x 22 combining / voiced / joiner / width marks; " +
 		"oracle: no panic, two runs agree, PositionIncr >= 0, 0 <= start <= end <= length of what the tokenizer saw, tokenizer term = input slice, and (every 4th input with tokens) a one-document index finds the document by a match query requiring all terms of its own text. distinct non-trivial = distinct (component, input class) that produced at least one token")
 	c.Assume("'the text the tokenizer saw' is obtained by applying the analyzer's own CharFilters to the input",
 		"non-termination is caught by the child's progress watchdog (wall clock, 90 s without a finished input batch) and reported as inconclusive unless the child died")
@@ -455,6 +516,17 @@ func runC18(c *vk.Ctx) {
 		cases = append(cases, c18Job{Kind: "charfilter", Name: name, Seed: vk.SubSeed(c.Seed, "cf-"+name), N: per / 2})
 		names = append(names, "charfilter:"+name)
 	}
+	// the enumerated rune-pair sweep through every analyzer, tokenizer and token filter
+	for i, n := 0, len(cases); i < n; i++ {
+		job := cases[i].(c18Job)
+		if job.Kind == "charfilter" {
+			continue
+		}
+		job.Sweep, job.Search = true, job.Search && !c.Quick()
+		cases = append(cases, job)
+		names = append(names, names[i])
+	}
+	c.Set("pair_sweep_pairs", c18SweepPairs())
 	results := vk.RunChildren(c.Scratch(), "c18", cases, vk.ChildOpts{PerChild: 1, Parallel: runtime.NumCPU(), CaseTimeout: 120 * time.Second, RlimitMB: 3072})
 	for i, res := range results {
 		job := cases[i].(c18Job)
@@ -474,6 +546,9 @@ func runC18(c *vk.Ctx) {
 		}
 		c.Eval(out.Inputs)
 		c.Event("inputs_"+job.Kind, out.Inputs)
+		if job.Sweep {
+			c.Event("pair_sweep_inputs", out.Inputs)
+		}
 		c.Event("tokens_produced", out.Tokens)
 		c.Event("roundtrip_searches", out.Searches)
 		for cl, n := range out.Classes {
